@@ -79,9 +79,9 @@ def cases(tier, seed):
         for solver in ("ScipyIVP", "ScipyDAE"):
             out.append({"kind": "unsupported_contacts", "solver": solver, "rep": r})
             out.append({"kind": "unsupported_friction", "solver": solver, "rep": r})
+            out.append({"kind": "nan_rhs", "solver": solver, "rep": r})
         for solver in ("DualStormerVerlet", "Newton", "Riks", "Moreau", "Rattle"):
             out.append({"kind": "actuators", "solver": solver, "rep": r})
-            out.append({"kind": "nan_rhs", "solver": solver, "rep": r})
     return out
 
 
